@@ -14,6 +14,7 @@ import (
 	"strconv"
 	"strings"
 	"sync"
+	"syscall"
 	"testing"
 
 	"pgregory.net/rapid"
@@ -54,6 +55,7 @@ type File struct {
 	Kind    string
 	Content pbt.S // the (uncompressed) text; for gzip kinds what was compressed
 	Cut     int   // truncation point / corrupt offset selector (percent of the stream)
+	Fifo    bool  `json:",omitempty"` // the path is a named pipe through which the bytes are written once (like <(cmd)); mentioned exactly once
 }
 
 type Arg struct {
@@ -325,6 +327,24 @@ func gen(t *rapid.T) Case {
 	if len(c.Args) == 0 {
 		c.Args = []Arg{{Text: "missing.log"}}
 	}
+	// named pipes: a path that delivers its bytes once, to one open (a fifo, a process substitution). Only
+	// for files that the argument list opens exactly once (a second open would wait for a writer for ever).
+	for i := range c.Files {
+		if rapid.IntRange(0, 7).Draw(t, "fifo") == 0 {
+			c.Files[i].Fifo = true
+		}
+	}
+	opens := map[string]int{}
+	for _, m := range expand(&c) {
+		if m.file != nil {
+			opens[m.file.Path]++
+		}
+	}
+	for i := range c.Files {
+		if c.Files[i].Fifo && opens[c.Files[i].Path] != 1 {
+			c.Files[i].Fifo = false
+		}
+	}
 	return c
 }
 
@@ -520,11 +540,41 @@ func check(c Case) error {
 			os.MkdirAll(filepath.Join(root, d), 0o755)
 		}
 	}
+	var feeders sync.WaitGroup
+	var fifos []string
 	for _, f := range c.Files {
-		if err := os.WriteFile(filepath.Join(root, f.Path), onDisk(f), 0o644); err != nil {
+		fp := filepath.Join(root, f.Path)
+		if f.Fifo {
+			if err := syscall.Mkfifo(fp, 0o644); err != nil {
+				return fmt.Errorf("harness: mkfifo: %v", err)
+			}
+			fifos = append(fifos, fp)
+			feeders.Add(1)
+			go func(fp string, data []byte) {
+				defer feeders.Done()
+				w, err := os.OpenFile(fp, os.O_WRONLY, 0) // returns when rare (or the clean-up below) opens the pipe
+				if err != nil {
+					return
+				}
+				w.Write(data)
+				w.Close()
+			}(fp, onDisk(f))
+			continue
+		}
+		if err := os.WriteFile(fp, onDisk(f), 0o644); err != nil {
 			return fmt.Errorf("harness: %v", err)
 		}
 	}
+	defer func() {
+		// release feeders whose pipe was never opened by rare, then wait for all of them
+		for _, fp := range fifos {
+			if r, err := os.OpenFile(fp, os.O_RDONLY|syscall.O_NONBLOCK, 0); err == nil {
+				defer r.Close()
+				go io.Copy(io.Discard, r)
+			}
+		}
+		feeders.Wait()
+	}()
 	args := []string{"--nocolor", "--noformat"}
 	if c.Histo {
 		args = append(args, "histo", "-m", `^(\S+) (\S*)$`, "-e", "{1}", "-e", "{2}", "--csv", "-")
@@ -800,6 +850,8 @@ func check(c Case) error {
 			o.Label(!m.dir && m.file == nil, "missing-path")
 			if m.file != nil {
 				o.Label(true, "kind:"+m.file.Kind)
+				o.Label(m.file.Fifo, "named-pipe")
+				o.Label(m.file.Fifo && c.Gunzip, "named-pipe-under-z")
 			}
 		}
 		dup := map[string]int{}
